@@ -140,6 +140,8 @@ pub struct PackInfoRec {
     pub free_data_id: u16,
     /// the pack's free data recorded in the manifest's value store (None when the store is absent or undecodable)
     pub free: Option<Vec<u8>>,
+    /// the manifest's copy of the pack's check info (data bytes of the block at check_pos), empty when unreadable
+    pub check_copy: Vec<u8>,
     pub location: String,
     /// absolute file offset of this 256-byte block
     pub at: u64,
@@ -162,6 +164,8 @@ pub struct PackView {
     pub check_ok: Option<bool>,
     /// the 24 free bytes of the kind-specific header (bytes 36..60 of the block at +64)
     pub free: Vec<u8>,
+    /// the data bytes of the pack's check block (kind byte + hash), empty when it could not be read
+    pub check_block: Vec<u8>,
 }
 
 #[derive(Clone, Debug, Default)]
@@ -421,6 +425,7 @@ fn decode_pack(buf: &[u8], origin: u64, fv: &mut FileView) {
     let pbuf = &buf[origin as usize..(origin + hdr.pack_size) as usize];
     // check block: kind 1 + 32 bytes blake3 + crc
     let mut check_ok = None;
+    let mut check_block_bytes: Vec<u8> = vec![];
     let cpos = hdr.check_info_pos;
     match check_block(pbuf, cpos, 33) {
         Ok(d) => {
@@ -428,6 +433,7 @@ fn decode_pack(buf: &[u8], origin: u64, fv: &mut FileView) {
                 fv.problem(format!("{what}: check kind {} (expected 1 = blake3)", d[0]));
             }
             let stored: [u8; 32] = d[1..33].try_into().unwrap();
+            check_block_bytes = d.to_vec();
             fv.span(origin + cpos, origin + cpos + 37, idx, "check block", false, true);
             if hdr.pack_size != cpos + 37 + 64 {
                 fv.problem(format!("{what}: declared pack size {} != check info pos {cpos} + check block 37 + tail 64", hdr.pack_size));
@@ -466,7 +472,7 @@ fn decode_pack(buf: &[u8], origin: u64, fv: &mut FileView) {
         }
     };
     let free = pbuf.get(64 + 36..64 + 60).map(|f| f.to_vec()).unwrap_or_default();
-    fv.packs.push(PackView { hdr, origin, body, check_ok, free });
+    fv.packs.push(PackView { hdr, origin, body, check_ok, free, check_block: check_block_bytes });
 }
 
 fn table_u64(pbuf: &[u8], pos: u64, n: u64, what: &str, name: &str, fv: &mut FileView) -> Vec<u64> {
@@ -1127,9 +1133,13 @@ fn decode_manifest(pbuf: &[u8], origin: u64, hdr: &PackHdr, idx: usize, what: &s
                     fv.problem(format!("{what}: pack info {i}: location padding not zero"));
                 }
                 // the pack's own check info copied in the manifest
-                if let Err(e) = check_block(pbuf, cpos, csize as u64) {
-                    fv.problem(format!("{what}: pack info {i}: check info copy: {e}"));
-                }
+                let check_copy = match check_block(pbuf, cpos, csize as u64) {
+                    Ok(c) => c.to_vec(),
+                    Err(e) => {
+                        fv.problem(format!("{what}: pack info {i}: check info copy: {e}"));
+                        vec![]
+                    }
+                };
                 fv.span(origin + at, origin + at + 38, idx, "pack info (checked part)", true, false);
                 fv.span(origin + at + 38, origin + at + 256, idx, "pack info (location, masked)", false, false);
                 infos.push(PackInfoRec {
@@ -1142,6 +1152,7 @@ fn decode_manifest(pbuf: &[u8], origin: u64, hdr: &PackHdr, idx: usize, what: &s
                     group: d[35],
                     free_data_id: le(d, 36, 2).unwrap() as u16,
                     free: store_bytes(&mvs, le(d, 36, 2).unwrap(), None).ok(),
+                    check_copy,
                     location,
                     at: origin + at,
                 });
